@@ -1316,6 +1316,9 @@ class Unit:
             r = self.an.closure_arg.get(self.fn.def_path)
             if r is not None:
                 st.cons[("param", 2, self.fn.body.names.get(2, "_2"))] = r
+            r0 = self.an.closure_arg.get((self.fn.def_path, "#0"))
+            if r0 is not None:
+                st.cons[self.canon(("field", ("param", 2, self.fn.body.names.get(2, "_2")), "#0"))] = r0
         self.explore(self.tree, 0, st, (), 0, ())
         return self
 
@@ -1732,6 +1735,18 @@ class Unit:
                 r = (lo[0], hi[1] - 1)
                 old = self.an.closure_arg.get(args[1][2])
                 self.an.closure_arg[args[1][2]] = r if old is None else join(old, r)
+            src = it
+            while src[0] == "call" and src[2] and last_seg(src[1]) in ("filter", "into_iter", "rev", "fuse", "peekable", "take_while",
+                                                                        "skip_while", "inspect", "skip", "take", "step_by"):
+                src = src[2][0]
+            if src[0] == "call" and last_seg(src[1]) == "enumerate":
+                # items are (index, element) pairs of `enumerate` (possibly filtered): the index is below the length
+                n_hi = self._iter_len(src, st)
+                if n_hi is not None:
+                    r = (0, max(n_hi - 1, 0))
+                    ck = (args[1][2], "#0")
+                    old = self.an.closure_arg.get(ck)
+                    self.an.closure_arg[ck] = r if old is None else join(old, r)
         if ls in TOTAL_EXT:
             return
         self.oblige("model", "unclassified external callee " + full, site, chain, False, "")
